@@ -149,6 +149,14 @@ type Exporter struct {
 	// empty statement list (C37: the conversions never look into bodies).
 	// NilSlices: print a nil slice as "~" (otherwise nil and empty slices are both "[]").
 	ZeroIDs, ElideBodies, NilSlices bool
+	// ObjKind: print a non-nil *ast.Object as t<Kind> (C17: Ident.Implicit() depends on Obj.Kind).
+	ObjKind bool
+	// NoPos: print every position as p0 (structural comparison of expressions).
+	NoPos bool
+	// OpaqueOther: print every value of class Other as "o", nil or not (structural comparison).
+	OpaqueOther bool
+	// NoComments: print Doc / Comment fields as nil.
+	NoComments bool
 }
 
 func NewExporter() *Exporter { return &Exporter{reg: XGo, ids: map[any]int{}} }
@@ -215,6 +223,10 @@ func (e *Exporter) node(pv reflect.Value, rec bool) {
 			fmt.Fprintf(&e.sb, "(BlockStmt %d Lbrace=p%d List=[] Rbrace=p%d)", bid, b.FieldByName("Lbrace").Int(), b.FieldByName("Rbrace").Int())
 			continue
 		}
+		if e.NoComments && (st.Field(i).Name == "Doc" || st.Field(i).Name == "Comment") {
+			e.sb.WriteString("~")
+			continue
+		}
 		e.value(fv)
 	}
 	e.sb.WriteByte(')')
@@ -231,6 +243,10 @@ func (e *Exporter) value(v reflect.Value) {
 	t := v.Type()
 	switch {
 	case t == posT:
+		if e.NoPos {
+			e.sb.WriteString("p0")
+			return
+		}
 		e.sb.WriteString("p" + strconv.FormatInt(v.Int(), 10))
 		return
 	case t == e.reg.tokT:
@@ -250,6 +266,8 @@ func (e *Exporter) value(v reflect.Value) {
 		}
 	case reflect.Ptr:
 		switch {
+		case e.OpaqueOther && e.reg.kindOf[t] == "" && e.reg.recOf[t] == "":
+			e.sb.WriteString("o")
 		case v.IsNil():
 			e.sb.WriteString("~")
 		case e.reg.kindOf[t] != "":
@@ -258,6 +276,8 @@ func (e *Exporter) value(v reflect.Value) {
 			e.sb.WriteByte('<')
 			e.node(v, true)
 			e.sb.WriteByte('>')
+		case e.ObjKind && t == objT:
+			e.sb.WriteString("t" + strconv.FormatInt(v.Elem().FieldByName("Kind").Int(), 10))
 		default:
 			e.sb.WriteString("o")
 		}
@@ -352,6 +372,7 @@ func (e *Exporter) value(v reflect.Value) {
 }
 
 var exprT = reflect.TypeOf((*ast.Expr)(nil)).Elem()
+var objT = reflect.TypeOf((*ast.Object)(nil))
 
 // ---- reflection-based child enumeration (the observation C18 names) ----
 
